@@ -392,8 +392,17 @@ def main():
         print(f"infrastructure: timeout after {limit} s\n  " + "\n  ".join(frames[-8:]))
         return 2
     except Exception:
-        print("infrastructure: harness raised\n" + traceback.format_exc())
-        return 2
+        # The harness drives the implementation in-process and takes its results apart; when it raises here — on the unchanged tree every
+        # check runs to the end — the implementation has handed back something the correspondence cannot process (an object without the
+        # attribute the decoder used to set, a value its own encoder refuses, …).  That is a correspondence that no longer checks, not a
+        # verdict about the property and not silence either: reported as the brief prescribes, with the traceback as the replay.
+        tb_text = traceback.format_exc()
+        path = write_replay(prop, {"property": prop, "kind": "no-failing-input-found", "broken_obligations": broken + [
+            {"obligation": "correspondence run", "kind": "the harness raised while driving / decoding the implementation", "log": tb_text[-3000:]}],
+            "disagreements": ctx.disagreements[:5]})
+        print("  correspondence run aborted: the harness raised while driving the implementation\n" + "\n".join("    " + l for l in tb_text.splitlines()[-8:]))
+        print(f"VIOLATION property={prop} replay={path} no-failing-input-found")
+        return 1
     finally:
         signal.alarm(0)
 
@@ -469,6 +478,20 @@ def main():
 
 
 def replay(mod, ctx, payload):
+    if payload.get("kind") == "no-failing-input-found":
+        # nothing to replay on the implementation: the replay names the proof obligations / correspondence that did not check.
+        # Replaying it = regenerating and re-checking them on the current tree (the quick tier of this check).
+        print("no failing input was recorded; what did not check:")
+        for b in payload.get("broken_obligations", []):
+            print(f"  {b.get('kind')}: {b.get('obligation')}")
+            for l in str(b.get("log", "")).splitlines()[-4:]:
+                print("      " + l[:200])
+        for d in payload.get("disagreements", [])[:3]:
+            print("  disagreement:", str(d)[:300])
+        print("re-checking on the current tree:")
+        rc, out = sh([sys.executable, os.path.abspath(__file__), ctx.prop, "--tier", "quick"], cwd=ROOT, timeout=3 * 3600)
+        print("\n".join("  " + l for l in out.splitlines()[-6:]))
+        return rc
     if not hasattr(mod, "replay"):
         print("this property has no replay handler")
         return 2
